@@ -42,13 +42,16 @@ SameTape(e, p) == p.op = "draw" /\ e.n = p.n /\ e.words = p.words
 
 DrawPropWhy(e) ==
   IF e.kind = "ok" /\ ~Lt(e.res, e.n) THEN "prop:result-out-of-range"
-  ELSE IF \E p \in {p1, p2} : SameTape(e, p) /\ (e.kind # p.kind \/ e.res # p.res \/ e.used # p.used)
+  \* (the same bytes delivered in other chunks: another RESULT is the violation; a draw that aborts on a short delivery builds nothing
+  \* and is allowed by C09's second sentence - reported as a deviation of shape below)
+  ELSE IF \E p \in {p1, p2} : SameTape(e, p) /\ e.kind = "ok" /\ p.kind = "ok" /\ (e.res # p.res \/ e.used # p.used)
        THEN "prop:same-bytes-different-result"
   ELSE "ok"
 \* a continuation after rejected words that differs from a fresh draw is not by itself a
 \* violation (another unbiased sampler might do that); the runner decides it with a depth-2 sweep
 DrawContWhy(e) ==
   IF \E p \in {p1, p2} : IsTailOf(e, p) /\ (e.kind # "ok" \/ e.res # p.res) THEN "shape:continuation-not-fresh"
+  ELSE IF \E p \in {p1, p2} : SameTape(e, p) /\ e.kind # p.kind THEN "shape:same-bytes-end-differently-in-other-chunks"
   ELSE "ok"
 
 \* ---- sweep summaries: all 2^32 raw words presented as the word at depth d ----
